@@ -93,8 +93,7 @@ theorem processLowest_eq (inj : BSt → Nat → BSt) (s : BSt) :
       cases flag <;> simp only [popSt, raiseSt, hpe] <;> rfl
 
 /-- what a property must be stable under to hold along every schedule -/
-structure Closed (P : BSt → Prop) : Prop where
-  front : ∀ s f, P s → P (applyFront s f).1
+structure ClosedB (P : BSt → Prop) : Prop where
   siteCnt : ∀ s x, P s → P { s with siteCnt := x }
   emitInj : ∀ s a b c d, P s → P (s.emit (.inj a b c d))
   clock : ∀ s n, P s → P { s with now := n }
@@ -112,6 +111,10 @@ structure Closed (P : BSt → Prop) : Prop where
   report : ∀ s i, P s → (s.th i).fail > 0 → P (reportSt s i)
   pop : ∀ s i st rest, P s → lowest s = some i → (s.th i).buf = st :: rest → P (popSt s i st rest)
   raise : ∀ s f, P s → (∃ st, s.popLog.head? = some st ∧ st.kind = .flush f) → P (raiseSt s f)
+
+/-- … and, for schedules with frontend operations, under every frontend operation -/
+structure Closed (P : BSt → Prop) : Prop extends ClosedB P where
+  front : ∀ s f, P s → P (applyFront s f).1
 
 /-- the injection runner keeps the property (and does not touch the backend's pop history) -/
 def InjOK (P : BSt → Prop) (inj : BSt → Nat → BSt) : Prop :=
@@ -334,11 +337,7 @@ theorem processEvent_flag (s : BSt) (st : Stmt) (f : Nat) (h : (processEvent s s
   · cases h
 
 
-section
-variable {P : BSt → Prop} (hc : Closed P)
-include hc
-
-theorem runInj_ok (table : List (Nat × Nat × List FOp)) : InjOK P (runInj table) := by
+theorem runInj_ok {P : BSt → Prop} (hc : Closed P) (table : List (Nat × Nat × List FOp)) : InjOK P (runInj table) := by
   intro s site hs
   refine ⟨?_, runInj_popLog table s site⟩
   rw [runInj_eq]
@@ -346,6 +345,17 @@ theorem runInj_ok (table : List (Nat × Nat × List FOp)) : InjOK P (runInj tabl
   split
   · exact h1
   · exact foldl_pres P _ (fun x f hx => hc.emitInj _ _ _ _ _ (hc.front x f hx)) _ _ h1
+
+/-- with nothing scheduled at the hook sites only the visit counters change: no frontend closure needed -/
+theorem runInj_nil_ok {P : BSt → Prop} (hc : ClosedB P) : InjOK P (runInj []) := by
+  intro s site hs
+  refine ⟨?_, runInj_popLog [] s site⟩
+  rw [runInj_eq]
+  exact hc.siteCnt s _ hs
+
+section
+variable {P : BSt → Prop} (hc : ClosedB P)
+include hc
 
 theorem readQueue_ok {inj : BSt → Nat → BSt} (hi : InjOK P inj) (tsNow : Option Nat) (i : Nat) :
     ∀ (fuel total : Nat) (s : BSt), P s → P (readQueue inj tsNow i fuel total s)
@@ -492,25 +502,26 @@ theorem exitLoop_ok {inj : BSt → Nat → BSt} (hi : InjOK P inj) (tick : Nat) 
       · exact batchLoop_ok hc hi _ _ h2
       · exact h2
 
-theorem applyOp_closed (s : BSt) (op : Op) (hs : P s) : P (applyOp s op).1 := by
+end
+
+theorem applyOp_closed {P : BSt → Prop} (hc : Closed P) (s : BSt) (op : Op) (hs : P s) : P (applyOp s op).1 := by
   cases op with
   | front f => exact hc.front s f hs
   | poll table =>
     simp only [applyOp]; split
     · exact hs
-    · exact poll_ok hc (runInj_ok hc table) _ (hc.siteCnt s [] hs)
+    · exact poll_ok hc.toClosedB (runInj_ok hc table) _ (hc.siteCnt s [] hs)
   | exit =>
     simp only [applyOp]; split
     · exact hs
-    · exact hc.gone _ (exitLoop_ok hc (runInj_ok hc []) _ _ _ (hc.siteCnt s [] hs))
+    · exact hc.gone _ (exitLoop_ok hc.toClosedB (runInj_ok hc []) _ _ _ (hc.siteCnt s [] hs))
 
 /-- **every schedule**: a closed property of the initial state holds after any list of operations -/
-theorem runOps_closed : ∀ (ops : List Op) (s : BSt), P s → P (runOps s ops)
+theorem runOps_closed {P : BSt → Prop} (hc : Closed P) : ∀ (ops : List Op) (s : BSt), P s → P (runOps s ops)
   | [], _, hs => hs
   | o :: os, s, hs => by
     show P (runOps (applyOp s o).1 os)
-    exact runOps_closed os _ (applyOp_closed hc s o hs)
+    exact runOps_closed hc os _ (applyOp_closed hc s o hs)
 
-end
 
 end Backend.PC
